@@ -23,6 +23,7 @@ the miner round (model `XV.Miner`; the state of this part survives `sync`):
   height <h>                          -> ok|differ  claim: the trunk height (tracked: pack / fblock / mine)
   task <H> <id> c=<h> | task <H> <id> p -> ok       a timer task of the live state, confirmed at height h / pending
   mine [trunc=K]                      -> h=<height> award=<amount> timer=<ids|->   one round of Miner.mining
+  mine fault=state|ledger             -> failed h=<ledger height>   a round whose PlayForMiner / ConfirmBlock write fails
 -/
 namespace XV.Drv.Pool
 open XV.Chain XV.Pool XV.Drv XV.Drv.Chain
@@ -130,6 +131,17 @@ def step (d : DS) (line : String) : DS × String :=
     | "mine" =>
       let k := ((lookup kv "trunc").bind String.toNat?).getD 0
       if k > d.ms.height then (d, "bad-op")
+      else if (lookup kv "fault").isSome then
+        -- a round that fails on an injected write: the ledger keeps the block iff the STATE write failed
+        let s0 : XV.Miner.NodeS := { node := nodeOf d.ms, played := d.ms.height, total := 0 }
+        match (if k > 0 then none else match getKV kv "fault" with
+            | "state" => some XV.Miner.Fault.state
+            | "ledger" => some XV.Miner.Fault.ledger
+            | _ => none) with
+        | none => (d, "bad-op")
+        | some f =>
+          let s := XV.Miner.roundS d.ms.cfg false s0 (some f)
+          ({ d with ms := { d.ms with height := s.node.height, tasks := [] } }, s!"failed h={s.node.height}")
       else
         let (b, _) := XV.Miner.mineRound d.ms.cfg (nodeOf d.ms) k
         let tm := if b.timer.isEmpty then "-" else String.intercalate "," ((sortNat b.timer).map toString)
